@@ -35,7 +35,7 @@ int main(int argc, char** argv) {
     std::signal(SIGALRM, on_alarm);
     vh::Rng rng(seed);
     for (long t = 0; t < budget; ++t) {
-        const int n = (int)rng.range(6, 32);
+        const int n = (t % 6 == 5) ? 32 : (int)rng.range(6, 32);
         std::vector<long> sp(n);
         const int kind = (int)rng.range(0, 5);
         // floor: small positive values, zeros now and then
@@ -59,6 +59,15 @@ int main(int argc, char** argv) {
                 if (rng.coin() && c + 1 < n) { sp[c + 1] = std::max(sp[c + 1], rng.coin() ? top : top / 2); }
                 if (rng.coin() && c >= 1) { sp[c - 1] = std::max(sp[c - 1], top / 2); }
                 if (rng.range(0, 3) == 0 && c + 2 < n) { sp[c + 2] = std::max(sp[c + 2], top / 4); }
+            }
+        }
+        // one case in six: a wide lobe (flanks of 9..14 strictly decreasing bins) on a long spectrum
+        if (t % 6 == 5 && n >= 30) {
+            const int c = (int)rng.range(14, n - 15), fl = (int)rng.range(9, 14);
+            for (int k = 0; k <= fl; ++k) {
+                const long v = 3 * (fl - k) + 4 + (k == 0 ? 5 : 0);
+                if (c - k >= 0) { sp[c - k] = v + (k ? 1 : 0); }
+                if (c + k < n) { sp[c + k] = v; }
             }
         }
         long total = 0;
